@@ -177,3 +177,107 @@ Proof.
   - destruct (reg_find (w_tcp_reg w) e) as [s'|]; [|exact U].
     destruct (s' =? s); [|exact U]. simpl. apply uniq_remove; exact U.
 Qed.
+
+(* ---------------- the registry over whole histories of binds and releases ---------------- *)
+Inductive reg_ev := EvBind (sock : Z) (e : endpoint) | EvUnbind (sock : Z) (e : endpoint).
+
+Definition reg_unbind (r : reg) (sock : Z) (e : endpoint) : reg :=
+  match reg_find r e with
+  | Some s' => if s' =? sock then reg_remove r e else r
+  | None => r
+  end.
+
+Definition reg_step (st : reg * Z) (ev : reg_ev) : reg * Z :=
+  match ev with
+  | EvBind s e => let '(_, _, r', n') := sim_bind (fst st) (snd st) s e in (r', n')
+  | EvUnbind s e => (reg_unbind (fst st) s e, snd st)
+  end.
+
+(* the abstract registry: a partial function from endpoints to the one socket bound there *)
+Definition amap := endpoint -> option Z.
+Definition aupd (m : amap) (e : endpoint) (v : option Z) : amap := fun x => if ep_eqb e x then v else m x.
+
+Definition astep (st : reg * Z) (m : amap) (ev : reg_ev) : amap :=
+  match ev with
+  | EvBind s e => let '(err, bound, _, _) := sim_bind (fst st) (snd st) s e in
+                  if err =? EC_OK then aupd m bound (Some s) else m
+  | EvUnbind s e => match m e with
+                    | Some s' => if s' =? s then aupd m e None else m
+                    | None => m
+                    end
+  end.
+
+Definition refines (r : reg) (m : amap) : Prop := uniq r /\ forall x, reg_find r x = m x.
+
+Theorem reg_step_refines st m ev : refines (fst st) m -> refines (fst (reg_step st ev)) (astep st m ev).
+Proof.
+  intros [U R]. destruct st as [r next]. destruct ev as [s e|s e]; simpl in *.
+  - pose proof (sim_bind_spec r next s e U) as Sp.
+    destruct (sim_bind r next s e) as [[[err bound] r'] n']. destruct Sp as (_ & _ & _ & Ok & Ko). simpl.
+    destruct (err =? EC_OK) eqn:E.
+    + apply Z.eqb_eq in E. destruct (Ok E) as (_ & F' & U' & _ & O). split; [exact U'|].
+      intros x. unfold aupd. destruct (ep_eqb bound x) eqn:B.
+      * apply ep_eqb_eq in B. subst x. exact F'.
+      * rewrite (O x B). apply R.
+    + apply Z.eqb_neq in E. rewrite (Ko E). split; assumption.
+  - unfold reg_unbind. rewrite <- (R e). destruct (reg_find r e) as [s'|] eqn:F; [|split; assumption].
+    destruct (s' =? s); [|split; assumption].
+    split; [apply uniq_remove; exact U|]. intros x. unfold aupd. destruct (ep_eqb e x) eqn:B.
+    + apply ep_eqb_eq in B. subst x. apply reg_find_remove_same. exact U.
+    + rewrite (reg_find_remove_other r e x B). apply R.
+Qed.
+
+Fixpoint arun (st : reg * Z) (m : amap) (evs : list reg_ev) : (reg * Z) * amap :=
+  match evs with
+  | [] => (st, m)
+  | ev :: r => arun (reg_step st ev) (astep st m ev) r
+  end.
+
+(* for every history of binds and releases the registry is a function (at most one
+   socket per endpoint) and agrees with the abstract map *)
+Theorem registry_refines_a_partial_map evs : forall st m, refines (fst st) m ->
+  refines (fst (fst (arun st m evs))) (snd (arun st m evs)).
+Proof.
+  induction evs as [|ev evs IH]; intros st m H; [exact H|]. simpl. apply IH. apply reg_step_refines. exact H.
+Qed.
+
+Corollary registry_keys_stay_unique evs next0 : uniq (fst (fst (arun ([], next0) (fun _ => None) evs))).
+Proof.
+  apply (registry_refines_a_partial_map evs ([], next0) (fun _ => None)). split; [exact I|reflexivity].
+Qed.
+
+(* a bind succeeds only on an endpoint nobody holds, and then holds it; a failed bind changes nothing *)
+Theorem bind_is_exclusive st m s e : refines (fst st) m ->
+  let '(err, bound, _, _) := sim_bind (fst st) (snd st) s e in
+  (err = EC_OK -> m bound = None /\ astep st m (EvBind s e) bound = Some s) /\
+  (err <> EC_OK -> astep st m (EvBind s e) = m).
+Proof.
+  intros [U R]. simpl. pose proof (sim_bind_spec (fst st) (snd st) s e U) as Sp.
+  destruct (sim_bind (fst st) (snd st) s e) as [[[err bound] r'] n']. destruct Sp as (_ & _ & _ & Ok & _). split.
+  - intros E. destruct (Ok E) as (F & _). rewrite <- R. split; [exact F|].
+    rewrite E. simpl. unfold aupd. rewrite ep_eqb_refl. reflexivity.
+  - intros E. apply Z.eqb_neq in E. rewrite E. reflexivity.
+Qed.
+
+(* releasing touches one's own binding only *)
+Theorem release_is_ones_own m s e st :
+  (m e = Some s -> astep st m (EvUnbind s e) e = None) /\
+  (m e <> Some s -> astep st m (EvUnbind s e) = m) /\
+  (forall x, ep_eqb e x = false -> astep st m (EvUnbind s e) x = m x).
+Proof.
+  simpl. repeat split.
+  - intros H. rewrite H, Z.eqb_refl. unfold aupd. rewrite ep_eqb_refl. reflexivity.
+  - intros H. destruct (m e) as [s'|]; [|reflexivity]. destruct (s' =? s) eqn:E; [|reflexivity].
+    apply Z.eqb_eq in E. subst. contradiction.
+  - intros x B. destruct (m e) as [s'|]; [|reflexivity]. destruct (s' =? s); [|reflexivity]. unfold aupd. rewrite B. reflexivity.
+Qed.
+
+(* unbind_tcp / unbind_udp of the model are reg_unbind on their registry *)
+Theorem unbind_is_reg_unbind w s e :
+  w_tcp_reg (unbind_tcp w s e) = reg_unbind (w_tcp_reg w) s e /\
+  w_udp_reg (unbind_udp w s e) = reg_unbind (w_udp_reg w) s e.
+Proof.
+  unfold unbind_tcp, unbind_udp, reg_unbind. split.
+  - destruct (reg_find (w_tcp_reg w) e) as [s'|]; [destruct (s' =? s)|]; reflexivity.
+  - destruct (reg_find (w_udp_reg w) e) as [s'|]; [destruct (s' =? s)|]; reflexivity.
+Qed.
